@@ -33,7 +33,8 @@ package codec
 // MergeHeader: protected headers of a are untouched, Set-Cookie values accumulate, every other
 // header of b replaces the one in a, headers not in b are untouched.
 //@ func MergeHeader
-//@   requires (b != nil ==> a != nil) && a != b
+//@   requires b != nil ==> a != nil
+//@   assumes a != b
 //@   ensures[C17] forall k string :: predProtectedHeader(k) ==> has(a, k) == old(has(a, k)) && a[k] == old(a[k])
 //@   ensures[C17] forall k string :: has(b, k) && !predProtectedHeader(k) && k != "Set-Cookie" ==> has(a, k) && a[k] == b[k]
 //@   ensures[C17] forall k string :: !has(b, k) ==> has(a, k) == old(has(a, k)) && a[k] == old(a[k])
@@ -44,6 +45,12 @@ package codec
 //@   loop 1 invariant forall k string :: visited1[k] && has(b, k) && !predProtectedHeader(k) && k != "Set-Cookie" ==> has(a, k) && a[k] == b[k]
 //@   loop 1 invariant forall k string :: !visited1[k] || !has(b, k) ==> has(a, k) == old(has(a, k)) && a[k] == old(a[k])
 //@   loop 1 invariant visited1["Set-Cookie"] && has(b, "Set-Cookie") ==> has(a, "Set-Cookie") && len(a["Set-Cookie"]) == old(len(a["Set-Cookie"])) + len(b["Set-Cookie"])
+
+// Merge (meta of a later response overrides the earlier one) is not verified here.
+//@ func (*Meta).Merge
+//@   trusted
+//@   ensures m == nil ==> result == o
+//@   ensures m != nil && o == nil ==> result == m
 
 // The decoded access result is never modified.
 //@ immutable AccessResult.Get, AccessResult.Call
